@@ -51,8 +51,24 @@ class _Unpicklable(_Plain):
         return ("u", self.fn(y))
 
 
+class _EmptyBag(_Plain):
+    """A falsy object (an empty container): wrappers must test `is None`, never truthiness."""
+    tag = "empty-bag"
+
+    def __len__(self):
+        return 0
+
+
+class _FalseGate(_Callable):
+    tag = "false-gate"
+
+    def __bool__(self):
+        return False
+
+
 def _exemplar(i):
-    return [lambda x: x * 7, _closure(5), _rec, _Callable(6), _Plain(1, 2), _Unpicklable(8, 9)][i]
+    return [lambda x: x * 7, _closure(5), _rec, _Callable(6), _Plain(1, 2), _Unpicklable(8, 9),
+            _EmptyBag(5, 6), _FalseGate(3)][i]
 
 
 ATTRS = ["a", "method", "tag", "_obj", "_keep_wrapper", "missing"]
@@ -83,11 +99,11 @@ def _same_behaviour(w, ref, x, attr):
 
 def check_object_wrapper(kind: int, keep: bool, trips: int, attr: int, x: int) -> bool:
     """
-    pre: 0 <= kind <= 5 and 1 <= trips <= 3 and 0 <= attr <= 5
+    pre: 0 <= kind <= 7 and 1 <= trips <= 3 and 0 <= attr <= 5
     pre: 0 <= x <= 3
     post: _
     """
-    kind, trips, attr, x = _conc(kind, 5), _conc(trips, 3), ATTRS[_conc(attr, 5)], _conc(x, 3)
+    kind, trips, attr, x = _conc(kind, 7), _conc(trips, 3), ATTRS[_conc(attr, 5)], _conc(x, 3)
     ref = _exemplar(kind)
     w = wrap_non_picklable_objects(ref, keep_wrapper=bool(keep))
     if not isinstance(w, CloudpickledObjectWrapper) or isinstance(w, CallableObjectWrapper) != callable(ref):
